@@ -99,10 +99,10 @@ impl Property for C14 {
         "C14"
     }
     fn rule(&self) -> String {
-        "cases = scope_frag programs (C13's generator: names a-d, shadowing, duplicate declarations, closures, loops, function statements); for every local/parameter declaration token and every use token that the tool itself resolves to a local, textDocument/rename (newName zz9) and textDocument/references (includeDeclaration) are requested through the in-process dispatcher; oracle: with R(D) = {declaring token of D} + {use tokens whose own find_decl is D}: (a) the rename edits of the file are exactly the name-token ranges of R(D), pairwise non-overlapping, all with the new text; (b) references returns the same set of ranges; (c) applying the edits gives a program whose resolution structure (use index -> declaration index, by the tool's find_decl after re-analysis) equals the original's; non-trivial = |R(D)| >= 3 for a requested D and another declaration of the same name exists".into()
+        "cases = scope_frag programs (C13's generator: names a-d, shadowing, duplicate declarations, closures, loops, function statements); for every local/parameter declaration token and every use token that the tool itself resolves to a local, textDocument/rename (newName zz9) and textDocument/references (includeDeclaration) are requested through the in-process dispatcher; oracle: with R(D) = {declaring token of D} + {use tokens whose own find_decl is D}: (0) R(D) equals the group given by an independent resolver implementing Lua's scoping rules; (a) the rename edits of the file are exactly the name-token ranges of R(D), pairwise non-overlapping, all with the new text; (b) references returns the same set of ranges; (c) applying the edits gives a program whose resolution structure (use index -> declaration index, by the tool's find_decl after re-analysis) equals the original's; non-trivial = |R(D)| >= 3 for a requested D and another declaration of the same name exists".into()
     }
     fn assumptions(&self) -> Vec<String> {
-        vec!["R(D) is computed with the tool's OWN resolution (find_decl, NoTrace), so C13's defects are not double-counted here".into()]
+        vec!["R(D) is computed with the tool's own resolution (find_decl, NoTrace) and, for every declaration, compared with the group Lua's scoping rules give (oracle::scoping); a resolution defect therefore shows in C13 and here".into()]
     }
     fn cases(&self, tier: Tier) -> u32 {
         tier.pick(3000, 200_000)
@@ -140,6 +140,20 @@ impl Property for C14 {
             let same_name_other_decl = toks.iter().enumerate().any(|(k, o)| o.is_decl && k != d && o.name == toks[d].name);
             if group.len() >= 3 && same_name_other_decl {
                 nontrivial = true;
+            }
+            // independent reference for "every use that resolves to it": Lua's scoping rules (oracle::scoping, the
+            // resolver C13 judges find_decl with).  R(D) above comes from the tool; the two must name the same tokens.
+            if t.is_decl && d == i {
+                let lua_group: BTreeSet<usize> = (0..toks.len()).filter(|k| *k == i || (!toks[*k].is_decl && toks[*k].expected_decl == Some(i))).collect();
+                if lua_group != group {
+                    let missing: Vec<usize> = lua_group.difference(&group).map(|k| toks[*k].offset).collect();
+                    let extra: Vec<usize> = group.difference(&lua_group).map(|k| toks[*k].offset).collect();
+                    return Verdict::fail(
+                        format!("rename-set-not-lua-scoping:{}", toks[d].kind.map(|k| k.name()).unwrap_or("?")),
+                        format!("the tokens renamed/referenced with the declaration of `{}` at offset {} are not the uses that resolve to it under Lua's scoping rules: missing uses at offsets {missing:?}, foreign tokens at offsets {extra:?}\n{text}", t.name, t.offset),
+                    );
+                }
+                obs.class("group-checked-against-lua-scoping");
             }
             let (l, ch) = position_of(&text, t.offset);
             let what = if t.is_decl { "decl" } else { "use" };
